@@ -203,9 +203,9 @@ def gen_c16_item(r: random.Random, idx: int):
     elif gen_kind == "const":
         it.generics, tparams = "<T, const N: usize>", ["T"]
     elif gen_kind == "bounded":
-        it.generics, tparams = "<T: Clone + std::fmt::Debug>", ["T"]
+        it.generics, tparams = "<T: " + r.choice(["Clone + std::fmt::Debug", "Ord", "Eq + std::hash::Hash", "PartialOrd + Copy", "Ord + Clone"]) + ">", ["T"]
     elif gen_kind == "where":
-        it.generics, tparams, it.where = "<T>", ["T"], " where T: Clone"
+        it.generics, tparams, it.where = "<T>", ["T"], " where T: " + r.choice(["Clone", "Eq", "Ord + std::fmt::Debug", "PartialEq + std::hash::Hash"])
     elif gen_kind == "default":
         it.generics, tparams = "<T = String>", ["T"]
     elif gen_kind == "constdef":
